@@ -208,6 +208,7 @@ CONTRACTS["vsg.rules.whitespace_between_tokens.Rule.create_violation"] = dict(
         # carries the requested width
         "len(self.violations) == len(old(self.violations)) or len(self.violations) == len(old(self.violations)) + 1",
         "self.violations[:len(old(self.violations))] == old(self.violations)",
+        "forall(lambda j: self.violations[j] == old(self.violations)[j], 0, len(old(self.violations)))",
         "implies(len(self.violations) > len(old(self.violations)), self.violations[len(old(self.violations))].oTokens == oToi and self.violations[len(old(self.violations))].action is not None)",
     ],
 )
